@@ -59,7 +59,7 @@ def handle (args : List String) (impl : String) : R Ans :=
         let b2n := fun (o : Option Bool) (w : Nat) => if o.getD false then w else 0
         let eqrc := b2n (Slice.eq d s d (Slice.rc s)) 1 + b2n (Slice.eq d (Slice.rc s) d s) 2 + b2n (Slice.eq d s d (Slice.rc (Slice.rc s))) 4
         pure (";".intercalate tr.reverse ++
-          s!"|bytes={showNats bs} ascii={txt ((Slice.ascii d s).getD [])} str={txt ((Slice.toDnaString d s).getD [])} disp={txt ((Slice.display d s).getD [])} owned={showT owned} eq={if eq then 1 else 0} eqrc={eqrc} kmer={km} dbg={txt ((Slice.debug d s).getD [])}")
+          s!"|bytes={showNats bs} ascii={txt ((Slice.ascii d s).getD [])} str={txt ((Slice.toDnaString d s).getD [])} disp={txt ((Slice.display d s).getD [])} owned={showT owned} eq={if eq then 1 else 0} eqrc={eqrc} it={adaptorsTxt (bs.map toString)} kmer={km} dbg={txt ((Slice.debug d s).getD [])}")
       | _, _ => pure "panic"
     let verdict ← match spec with
       | none => pure (if impl == "panic" then "ok" else "FAIL:no-panic-on-out-of-range-interval")
@@ -72,7 +72,7 @@ def handle (args : List String) (impl : String) : R Ans :=
               let w := (l.drop pos).take c.K
               s!"{toHex (KSpec.val4 w)}:{showNats w}"
             else "panic"
-          let expect := s!"bytes={showNats l} ascii={txt (KSpec.toText l)} str={txt (KSpec.toText l)} disp={txt (KSpec.toText l)} owned={ownedExpect} eq=1 eqrc={if l == KSpec.rc l then 7 else 4} kmer={kmExpect}"
+          let expect := s!"bytes={showNats l} ascii={txt (KSpec.toText l)} str={txt (KSpec.toText l)} disp={txt (KSpec.toText l)} owned={ownedExpect} eq=1 eqrc={if l == KSpec.rc l then 7 else 4} it={adaptorsTxt (l.map toString)} kmer={kmExpect}"
           -- the debug form is the last field; from length 256 on it is a summary that does not render the
           -- sequence, so it is compared with the model only
           let (front, dbg) := match tl.splitOn " dbg=" with
